@@ -537,7 +537,7 @@ class MolGrid(Grid):
                 f"Got {len(s_sectors)} angular sectors and {len(r_sectors)} radial sectors."
             )
 
-        radius_atom = [radius] * natoms if isinstance(radius, (float, np.float64)) else radius
+        radius_atom = [radius] * natoms if np.ndim(radius) == 0 else radius
         for i, atnum in enumerate(atnums):
             # get proper radial grid
             if isinstance(rgrid, OneDGrid):
